@@ -90,27 +90,54 @@ class Hung(Exception):
     """The pass did not terminate within the limit."""
 
 
+_CLOCK = [0.0, 0.0, 0.0]   # thread CPU time when the guarded call began, thread CPU time it must have had, wall-clock deadline
+
+
 def _on_alarm(signum, frame):
+    # "does not terminate" is a statement about the pass, not about the machine: the wall-clock limit only
+    # counts when this thread has had at least half of it as CPU time (the machine is shared, and the threads
+    # that read the output of the concurrent TLC runs hold the interpreter lock for long stretches)
+    short = _CLOCK[1] - (time.thread_time() - _CLOCK[0])
+    if short > 0 and time.monotonic() < _CLOCK[2]:
+        signal.setitimer(signal.ITIMER_REAL, max(short, 0.02), 0.02)
+        return
     signal.setitimer(signal.ITIMER_REAL, 0)
     raise _Alarm()
 
 
 def guarded(fn, limit):
     """fn() under a wall-clock limit.  The timer repeats: when it fires at the recursion limit the
-    handler itself cannot be entered (RecursionError, swallowed by the code under test)."""
+    handler itself cannot be entered (RecursionError, swallowed by the code under test).  Because it
+    repeats, a second firing can be pending when the first one has been handled: the timer is disarmed
+    in a loop that absorbs it, and SIGALRM is ignored before control leaves this function."""
     old = signal.signal(signal.SIGALRM, _on_alarm)
+    hung, result, error = False, None, None
+    saved = list(_CLOCK)
+    _CLOCK[:] = [time.thread_time(), limit / 2, time.monotonic() + 30 * limit]
     try:
         try:
             signal.setitimer(signal.ITIMER_REAL, limit, 0.02)
-            return fn()
-        finally:
+            result = fn()
+        except _Alarm:
+            hung = True
+        except BaseException as exc:  # noqa: BLE001 - re-raised below, once the timer is off
+            error = exc
+    except _Alarm:  # the pending second firing, delivered inside one of the handlers above
+        hung = True
+    while True:
+        try:
             signal.setitimer(signal.ITIMER_REAL, 0)
-    except _Alarm:
-        signal.setitimer(signal.ITIMER_REAL, 0)
-        raise Hung(f"no result within {limit}s") from None
-    finally:
-        signal.setitimer(signal.ITIMER_REAL, 0)
-        signal.signal(signal.SIGALRM, old)
+            signal.signal(signal.SIGALRM, signal.SIG_IGN)
+            break
+        except _Alarm:
+            continue
+    signal.signal(signal.SIGALRM, old)
+    _CLOCK[:] = saved
+    if error is not None:
+        raise error
+    if hung:
+        raise Hung(f"no result within {limit}s")
+    return result
 
 
 _SECOND_LOOKS = [0]
@@ -371,7 +398,7 @@ def slices(tier):
 INVARIANTS = ("WellFormed", "TypeSound", "CheckSound", "WrapNeutral", "RemoveNeutral", "VerdictStored")
 
 
-def mc_texts(sl, pool, real_names=REAL_NAMES, dump=True):
+def mc_texts(sl, pool, real_names=REAL_NAMES, dump=True, cond_rule="all"):
     name = "MC_C23_" + sl.name.replace("-", "_")
     mc = rpl.mc_module(name, pool, sl.lits, sl.zeros, sl.idx, sl.ops | sl.finalops, sl.maxnodes, sl.maxrank, sl.maxdim, sl.finalops, sl.levels, ())
     names = sorted(n for n, _ in sl.terminals if n in real_names)
@@ -379,15 +406,15 @@ def mc_texts(sl, pool, real_names=REAL_NAMES, dump=True):
     mc = mc.replace("====\n", "MC_RealTermNames == {" + ", ".join(f'"{n}"' for n in names) + "}\n====\n")
     cfg = rpl.mc_cfg(pool, sl.maxnodes, sl.maxrank, sl.maxdim, final_only=True, mikinds=sl.mikinds, dump=False, invariants=INVARIANTS)
     cfg = cfg.replace("SPECIFICATION Spec\n", "SPECIFICATION SpecC\n")
-    cfg = cfg.replace("CONSTANTS\n", f"CONSTANTS\nRealTermNames <- MC_RealTermNames\nPowLitOnly = {'TRUE' if sl.powlit else 'FALSE'}\n", 1)
+    cfg = cfg.replace("CONSTANTS\n", f"CONSTANTS\nRealTermNames <- MC_RealTermNames\nPowLitOnly = {'TRUE' if sl.powlit else 'FALSE'}\nCondRule = \"{cond_rule}\"\n", 1)
     if dump:
         cfg += "INVARIANT DumpInvC\n"
     return name, mc, cfg
 
 
-def tlc_phase(seed, sl, timeout=900, real_names=REAL_NAMES):
+def tlc_phase(seed, sl, timeout=900, real_names=REAL_NAMES, cond_rule="all"):
     pool = make_pool(sl, seed)
-    name, mc, cfg = mc_texts(sl, pool, real_names)
+    name, mc, cfg = mc_texts(sl, pool, real_names, cond_rule=cond_rule)
     kw = {}
     if sl.simulate:
         kw = dict(simulate=f"num={max(1, sl.simulate // TLC_WORKERS)}", depth=sl.depth or (sl.maxnodes + 1), seed=seed + 1 + hash_name(sl.name))
@@ -694,7 +721,9 @@ def run(ctx, args):
     ctx.rule = (
         "TLC enumerates programs of CplxTypes level by level (exhaustively for the short slices, seeded -simulate for the deep "
         "ones): operators over complex-typed (coefficient, constant) and real-typed (argument, cell volume, coordinates) "
-        "terminals and the literals 2, 1/2, -1, 0, 1j, then comparisons / min / max / sign, conditionals, and finally "
+        "terminals and the literals 2, 1/2, -1, 0, 1j, then comparisons / min / max / sign, conditionals (also as operands of "
+        "min / max / ordering comparisons, with every combination of real / complex true and false values, each under "
+        "conditions that select either branch in the complex environment), and finally "
         "do_comparison_check or remove_complex_nodes; a case = one program ending in a pass, replayed through the public API; "
         "non-trivial = the integrand contains an ordering comparison / min / max / sign (complex mode) or a conj / real / "
         "imag / complex literal (real mode) and model and code agree on the verdict"
@@ -898,6 +927,37 @@ def selftest(ctx):
     if not {"comparison-operand-not-wrapped", "value-changed"} <= fps:
         raise MachineryError(f"selftest: a value-changing wrapper was not detected ({sorted(fps)})")
     print("selftest: mutated wrapper (2*Real(.)) detected:", sorted({fp for fp, _ in s.viol})[:4])
+    # 7. a checker with a handler for conditionals that types them by the true value only
+    def conditional(self, o, c, t, f):
+        o = self.reuse_if_untouched(o, c, t, f)
+        self.nodetype[o] = "complex" if self.nodetype[t] == "complex" else "real"
+        return o
+
+    sl3 = [x for x in slices("quick") if x.name == "cond-op"][0]
+    pool3, res3 = tlc_phase(ctx.seed, sl3)
+    s = Sink()
+    j, n = replay_phase(s, sl3, pool3, res3)
+    if s.viol:
+        raise MachineryError(f"selftest cond-op baseline reports {s.viol[:2]}")
+    from ufl.corealg.multifunction import MultiFunction
+
+    cc.CheckComparisons.conditional = conditional
+    MultiFunction._handlers_cache.pop(cc.CheckComparisons, None)   # the handler table is computed once per class
+    try:
+        s = Sink()
+        replay_phase(s, sl3, pool3, res3)
+    finally:
+        del cc.CheckComparisons.conditional
+        MultiFunction._handlers_cache.pop(cc.CheckComparisons, None)
+    hits = sorted({fp for fp, _ in s.viol})
+    if not hits or not all(fp.startswith("C23:accepted-complex-comparison:") and fp.endswith(":Conditional") for fp in hits):
+        raise MachineryError(f"selftest: a conditional typed by its true value only was not detected as such ({hits[:4]})")
+    print(f"selftest: mutated checker (conditional typed by its true value) detected on {n} programs: {len(s.viol)} violations, {hits}")
+    # 8. the same mutation of the MODEL must be refuted by TLC
+    _, mres = tlc_phase(ctx.seed, sl3, cond_rule="true")
+    if mres.outcome != "invariant" or mres.violated not in ("TypeSound", "CheckSound", "WrapNeutral"):
+        raise MachineryError(f"selftest: TLC did not refute a lattice typing conditionals by their true value ({mres.outcome} {mres.violated})")
+    print(f"selftest: mutated model (conditional typed by its true value) refuted by TLC: invariant {mres.violated}")
     print("selftest OK")
 
 
